@@ -872,3 +872,241 @@ def c08_check(pid, tier, replay_file=None):
                    'crash oracle: exit status + Go panic banner of the worker subprocess; each hostile frame is followed (at least every 25 frames) by a well-formed probe on the same or on a fresh connection'])
 
 REGISTRY['C08'] = c08_check
+
+
+# ---------------------------------------------------------------------------
+# C12: options change performance, not results
+def config_space(wd):
+    import re as _re
+    res = run_tlc(wd, 'Config.tla', 'SPECIFICATION Spec\nINVARIANTS ResolutionSymmetric\nCONSTRAINT Emit\nCHECK_DEADLOCK FALSE\n', ['Config.tla'], workers=1, timeout=1200)
+    if not res['complete']:
+        raise Machinery('Config.tla enumeration failed:\n' + res['out'][-2000:])
+    seen, cfgs = set(), []
+    for m in _re.finditer(r'^<<"CFG", "(.*)">>$', res['out'], _re.M):
+        ln = m.group(1).replace('\\"', '"')
+        if ln not in seen:
+            seen.add(ln); cfgs.append(json.loads(ln))
+    return cfgs, res
+
+def pairwise(cfgs, rnd, extra=0):
+    """greedy covering array: every pair of (dimension=value) settings that occurs in the space occurs in a chosen configuration"""
+    keys = sorted(cfgs[0].keys())
+    def pairs(c):
+        return {(k1, str(c[k1]), k2, str(c[k2])) for i, k1 in enumerate(keys) for k2 in keys[i + 1:]}
+    pool = list(cfgs)
+    rnd.shuffle(pool)
+    pool = pool[:6000]
+    need = set()
+    for c in pool:
+        need |= pairs(c)
+    chosen = []
+    while need:
+        best, gain = None, -1
+        for c in rnd.sample(pool, min(len(pool), 400)):
+            g = len(pairs(c) & need)
+            if g > gain:
+                best, gain = c, g
+        if gain <= 0:
+            break
+        chosen.append(best)
+        need -= pairs(best)
+    chosen += rnd.sample(cfgs, min(extra, len(cfgs)))
+    return chosen
+
+def c12_check(pid, tier, replay_file=None):
+    import random as _random
+    t0 = time.time()
+    wd = scratch('c12')
+    cfgs, res = config_space(wd)
+    rnd = _random.Random(seed())
+    if tier == 'quick':
+        sel = pairwise(cfgs, rnd, extra=20)
+    else:
+        sel = pairwise(cfgs, rnd, extra=0) + rnd.sample(cfgs, min(6000, len(cfgs)))
+    work = []
+    for i, c in enumerate(sel):
+        w = {'name': 'cfg%d' % i, 'network': c['network'], 'tls': c['tls'], 'header': c['header'], 'codec': c['codec'], 'byname': c['byname'],
+             'poll': c['poll'], 'srvpipe': c['srvpipe'], 'srvdirect': c['srvdirect'], 'ctxbuf': c['ctxbuf'], 'nocopy': c['nocopy'],
+             'clipipe': c['clipipe'], 'clidirect': c['clidirect'], 'bufsize': c['bufsize'], 'conns': 2, 'callers': 2,
+             'calls': 16 if tier == 'quick' else 10, 'seed': 4242 + seed(), 'failevery': 4, 'frag': 9 if c['network'] == 'frag' else 0,
+             'readers': 2 if c['poll'] else 0, 'sizes': [0, 1, 20, 127, 128, 600, 5000, 66000, 80000]}
+        if c['network'] == 'ws':
+            w.update({'oneatatime': True, 'forms': 'call,ctx', 'callers': 1, 'calls': 2 * w['calls']})
+        work.append(w)
+    results, crashes = cf.run_stress(work, pid, shards=16, timeout=3000)
+    violations = []
+    for cr in crashes:
+        first = cr['panic'].splitlines()[0] if cr['panic'] else 'crash'
+        violations.append({'property': pid, 'signature': 'crash:' + first[:80], 'summary': 'C12: the process crashed under configuration %s: %s' % (json.dumps(cr['config']), first),
+                           'stress_config': cr['config'], 'schedule': None, 'finding': {'kind': 'crash', 'panic': cr['panic']}, 'trace': []})
+    byname = {w['name']: w for w in work}
+    digests = {}
+    skipped = []
+    for r in results:
+        w = byname.get(r['name'], {})
+        if r.get('skipped'):
+            skipped.append('%s: %s' % (json.dumps({k: w.get(k) for k in ('network', 'tls', 'codec', 'header')}), r['skipped']))
+            continue
+        for fl in (r.get('failures') or [])[:2]:
+            violations.append({'property': pid, 'signature': 'config:' + ' '.join(fl.split()[-6:]), 'summary': 'C12: configuration %s: %s' % (json.dumps({k: v for k, v in w.items() if k not in ('sizes', 'name')}), fl),
+                               'stress_config': w, 'schedule': None, 'finding': {'kind': 'config', 'failure': fl}, 'trace': []})
+        shape = 'ws' if w.get('network') == 'ws' else 'std'
+        digests.setdefault(shape, {}).setdefault(r['digest'], []).append(r['name'])
+    for shape, d in digests.items():
+        if len(d) > 1:
+            major = max(d.values(), key=len)
+            for dg, names in d.items():
+                if names is not major:
+                    w = byname[names[0]]
+                    violations.append({'property': pid, 'signature': 'config:transcript', 'summary': 'C12: the transcript (call -> outcome) under configuration %s differs from the one %d other configurations agree on' % (
+                        json.dumps({k: v for k, v in w.items() if k not in ('sizes', 'name')}), len(major)), 'stress_config': w, 'schedule': None, 'finding': {'kind': 'transcript'}, 'trace': []})
+    if skipped and len(skipped) > len(work) // 3:
+        raise Machinery('too many configurations could not be hosted: ' + '; '.join(skipped[:5]))
+    cov = {'evaluations': len(results), 'distinct_nontrivial': len(results) - len(skipped), 'exhaustive': tier != 'quick' and len(sel) >= len(cfgs),
+           'states': res['distinct'], 'transitions': res['states'], 'configurations_in_space': len(cfgs), 'calls': sum(r.get('calls', 0) for r in results),
+           'skipped': skipped[:10],
+           'rule': ('configurations are the states TLC enumerates from spec/Config.tla (network x TLS x header encoder x body codec x name-or-constructor x poll x server pipelining x server direct I/O x '
+                    'context buffer x NoCopy x client pipelining x client direct I/O x buffer size, with the documented exclusions); quick: a greedy pairwise covering array plus 20 random configurations, '
+                    'thorough: plus 6000 random ones; each runs the same seeded workload (sizes 0..80000 incl. larger than every buffer, failing calls, all call forms, all handler shapes); every call is '
+                    'checked against the expected transcript and the transcript digests of all configurations must agree'),
+           'samples': [{k: v for k, v in w.items() if k != 'sizes'} for w in work[:3]]}
+    shutil.rmtree(wd, ignore_errors=True)
+    return finish(pid, tier, 'exploration', cov, t0, violations, [],
+                  ['ws carries one call at a time (reading R9); NoCopy only with handlers that do not keep their arguments; buffer sizes via Options.ClientBufferSize / Server.SetBufferSize',
+                   'the poll-mode branch is hosted by the harness listener (fragmenting UNIX socket); real epoll via hslam/netpoll is not exercised here'])
+
+REGISTRY['C12'] = c12_check
+
+
+# ---------------------------------------------------------------------------
+# C11: what user code was handed is never backed by a recycled buffer
+BUF_DEVS = {'NoCopyReqArgs': ['req_args'], 'NoCopyReply': ['reply'], 'NoCopyStreamMsg': ['stream_msg_cli', 'stream_msg_srv'],
+            'ErrTextAlias': ['error_text'], 'ReleaseBeforeDecode': ['req_args', 'reply']}
+# which workload keeps values of which model path
+BUF_PATH_WORKLOAD = {'req_args': 'stress retain: handlers keep req.B', 'reply': 'stress retain: callers keep reply.B', 'error_text': 'stress retain: callers keep the error values',
+                     'stream_msg_cli': 'sstress retain: the client reader keeps every message', 'stream_msg_srv': 'sstress retain: the stream handler keeps every message'}
+
+def buffers_model(wd, tier):
+    big = tier == 'thorough'
+    cfg = ('SPECIFICATION Spec\nCONSTANTS Bufs = {1,2%s}\n Conns = {"c1","c2"}\n MaxVals = %d\n MaxGen = 3\n Dev = %s\n'
+           'INVARIANTS %s\nPROPERTY GenMonotone\nCHECK_DEADLOCK FALSE\n')
+    res = run_tlc(wd, 'Buffers.tla', cfg % ('', 3 if big else 2, '{}', 'UserStable DecodedWhileOwned NoClobberWithoutNoCopy'), ['Buffers.tla'], timeout=1500)
+    if not res['complete']:
+        raise Machinery('Buffers.tla (intended design) did not check:\n' + res['out'][-2500:])
+    devs = {}
+    for d, paths in BUF_DEVS.items():
+        inv = 'DecodedWhileOwned' if d == 'ReleaseBeforeDecode' else 'NoClobberWithoutNoCopy'
+        r = run_tlc(wd, 'Buffers.tla', cfg % ('', 2, '{"%s"}' % d, inv), ['Buffers.tla'], workers=4, timeout=600)
+        if inv not in r['violated']:
+            raise Machinery('Buffers.tla: deviation %s does not violate %s (the model cannot express the failure it guards against)' % (d, inv))
+        devs[d] = {'invariant': inv, 'paths': paths, 'schedule': [a for a, _ in error_trace(r)]}
+    import re as _re
+    rc = run_tlc(wd, 'BuffersCtx.tla', 'SPECIFICATION CSpec\nCONSTRAINT EmitCtx\nCHECK_DEADLOCK FALSE\n', ['BuffersCtx.tla'], workers=1, timeout=300)
+    if not rc['complete']:
+        raise Machinery('BuffersCtx.tla did not check:\n' + rc['out'][-1500:])
+    cases = []
+    for m in _re.finditer(r'^<<"CTX", "(.*)">>$', rc['out'], _re.M):
+        j = json.loads(m.group(1).replace('\\"', '"'))
+        t = [j['c']['cap'], j['c']['len'], 1 if j['placement'] == 'in_buffer' else 0]
+        if t not in cases:
+            cases.append(t)
+    if len(cases) < 20:
+        raise Machinery('BuffersCtx.tla emitted only %d cases' % len(cases))
+    return res, devs, cases
+
+def aligned(n):
+    if n < 65536:
+        p = 64
+        while p < n:
+            p *= 2
+        return p
+    return (n + 1023) // 1024 * 1024
+
+def sizes_around(n):
+    a = aligned(n)
+    s = {0, 1, 20, 600, a + 10, a + 3000}
+    for d in (-96, -80, -64, -56, -48, -40, -32, -24, -16, -8, 0, 6, 12, 16, 24):
+        s.add(n + d)
+    for d in (-40, -30, -20, -10, -4, 0):
+        s.add(a + d)
+    return sorted(x for x in s if x >= 0)
+
+def c11_workloads(tier, sd, ctxcases):
+    big = tier == 'thorough'
+    rows = [  # network codec header bufsize extra
+        ('unix', 'alias', '', 1000, {}), ('unix', 'alias', '', 0, {}), ('tcp', 'pb', '', 3000, {}), ('inproc', 'code', 'code', 3000, {'ctxbuf': True}),
+        ('frag', 'alias', '', 1000, {'poll': True, 'readers': 2, 'frag': 13}), ('frag', 'pb', 'pb', 0, {'poll': True, 'readers': 2, 'frag': 200, 'ctxbuf': True}),
+        ('unix', 'alias', '', 5000, {'srvpipe': True, 'clipipe': True}), ('unix', 'alias', '', 70000, {'srvdirect': True, 'clidirect': True}),
+        ('http', 'alias', 'json', 1000, {}), ('unix', 'alias', '', 1000, {'nocopy': True}), ('unix', 'alias', '', 1000, {'ctxbuf': True}),
+        ('unix', 'msgp', '', 700, {}), ('unix', 'json', '', 1000, {}), ('frag', 'alias', 'code', 3000, {'frag': 5}),
+        ('ws', 'alias', '', 1000, {'oneatatime': True, 'forms': 'call,ctx', 'callers': 1}),
+    ]
+    if big:
+        ext = []
+        for net in ('unix', 'tcp', 'inproc', 'frag', 'http'):
+            for codec in ('alias', 'pb', 'code', 'msgp'):
+                for bs in (0, 100, 1000, 3000, 33000, 70000):
+                    for extra in ({}, {'ctxbuf': True}, {'srvpipe': True, 'clipipe': True}, {'srvdirect': True, 'clidirect': True}) + (({'poll': True, 'readers': 2, 'frag': 50},) if net == 'frag' else ()):
+                        ext.append((net, codec, 'code' if codec == 'code' else '', bs, dict(extra)))
+        rows = rows + ext
+    work = []
+    for i, (net, codec, header, bs, extra) in enumerate(rows):
+        w = {'name': 'ret%d' % i, 'network': net, 'codec': codec, 'header': header, 'bufsize': bs, 'conns': 2, 'callers': 3, 'calls': 70 if not big else 50,
+             'seed': 1100 + 17 * i + sd, 'failevery': 5, 'retain': True, 'sizes': sizes_around(bs or 65536)}
+        w.update(extra)
+        if w.get('callers') == 1:
+            w['calls'] = 3 * w['calls']
+        if codec == 'alias' and not extra.get('oneatatime'):
+            w['ctxcases'] = ctxcases
+        work.append(w)
+    streams = []
+    srows = [('unix', 'alias', {}), ('frag', '', {'poll': True, 'readers': 2, 'frag': 7}), ('unix', 'alias', {'srvdirect': True, 'clidirect': True}),
+             ('unix', '', {'srvpipe': True}), ('frag', 'alias', {'frag': 3})]
+    for i, (net, codec, extra) in enumerate(srows * (4 if big else 1)):
+        s = {'name': 'sret%d' % i, 'network': net, 'codec': codec, 'streams': 3, 'pushfirst': i % 3, 'msgs': 15, 'unary': 8, 'end': 'close' if i % 2 == 0 else 'drop',
+             'seed': 2200 + 13 * i + sd, 'retain': True}
+        s.update(extra)
+        streams.append(s)
+    return work, streams
+
+def c11_check(pid, tier, replay_file=None):
+    t0 = time.time()
+    wd = scratch('c11')
+    res, devs, ctxcases = buffers_model(wd, tier)
+    work, streams = c11_workloads(tier, seed(), ctxcases)
+    results, crashes = cf.run_stress(work, pid, shards=16, timeout=3000)
+    sresults, scrashes = cf.run_stress(streams, pid + 's', shards=8, timeout=1200, cmd='sstress')
+    violations = []
+    for cr in crashes + scrashes:
+        first = cr['panic'].splitlines()[0] if cr['panic'] else 'crash'
+        violations.append({'property': pid, 'signature': 'crash:' + first[:80], 'summary': 'C11 workload crashed the process under %s: %s' % (json.dumps(cr['config']), first),
+                           'stress_config': cr['config'], 'schedule': None, 'finding': {'kind': 'crash', 'panic': cr['panic']}, 'trace': []})
+    byname = {w['name']: w for w in work + streams}
+    skipped = []
+    for r in results + sresults:
+        w = byname.get(r['name'], {})
+        if r.get('skipped'):
+            skipped.append('%s: %s' % (r['name'], r['skipped']))
+            continue
+        for fl in (r.get('failures') or [])[:3]:
+            kind = ('retained' if 'kept by' in fl else 'ctxbuffer' if 'context' in fl and 'buffer' in fl else 'payload')
+            violations.append({'property': pid, 'signature': kind + ':' + ' '.join(fl.split()[:8]),
+                               'summary': 'C11 (%s): %s  [configuration %s]' % (kind, fl, json.dumps({k: v for k, v in w.items() if k not in ('sizes', 'name', 'ctxcases')})),
+                               'stress_config': w, 'schedule': None, 'finding': {'kind': kind, 'failure': fl}, 'trace': []})
+    if len(skipped) > len(work) // 3:
+        raise Machinery('too many configurations could not be hosted: ' + '; '.join(skipped[:5]))
+    cov = {'states': res['distinct'], 'transitions': res['states'], 'exhaustive': True, 'model_depth': res['depth'],
+           'evaluations': len(results) + len(sresults), 'calls': sum(r.get('calls', 0) for r in results + sresults),
+           'context_buffer_cases': len(ctxcases), 'deviations_expressible': {d: v['invariant'] for d, v in devs.items()}, 'path_binding': BUF_PATH_WORKLOAD, 'skipped': skipped[:10],
+           'rule': ('spec/Buffers.tla (pooled frame buffers shared by all connections; Recv/Hand/Release; UserStable, DecodedWhileOwned, NoClobberWithoutNoCopy) checked exhaustively for the intended copy rules; '
+                    'every deviation of the catalogue violates an invariant (so the model can express the failure); each model path is bound to a workload in which user code keeps what it was handed '
+                    '(request arguments in handlers, replies, error values, stream messages on both ends) under aliasing codecs, buffer sizes that are not pool-aligned, payload sizes swept around the '
+                    'buffer size and its aligned capacity, several connections sharing the pools, then churn traffic; the verdict is an observed changed byte. spec/BuffersCtx.tla enumerates '
+                    'capacity x reply-length cases of the context-buffer placement rule; each runs against the real client with guard bytes around the buffer'),
+           'samples': [{k: v for k, v in w.items() if k not in ('sizes', 'ctxcases')} for w in work[:3]]}
+    shutil.rmtree(wd, ignore_errors=True)
+    return finish(pid, tier, 'exploration', cov, t0, violations, [],
+                  ['NoCopy configurations only check what the documentation still promises (client-side values); a handler that frees its context buffer gives it up',
+                   'pool reuse is driven by real traffic, not forced: a stale alias is observed when a later frame of the same size class lands in the recycled buffer (made likely by same-size churn on two connections)'])
+
+REGISTRY['C11'] = c11_check
